@@ -38,6 +38,10 @@ func (p *Processor) OpenCDR(
 		return cdr, nil
 	}
 
+	if chargingData.NfConsumerIdentification == nil {
+		return nil, fmt.Errorf("nfConsumerIdentification is missing in the charging data request")
+	}
+
 	chfCdr.RecordType = cdrType.RecordType{
 		Value: 200,
 	}
@@ -168,25 +172,31 @@ func (p *Processor) OpenCDR(
 	}
 	if pduSessionInfo := chargingData.PDUSessionChargingInformation; pduSessionInfo != nil {
 		logger.ChargingdataPostLog.Debugln("PDU Session Charging Event")
-		chfCdr.PDUSessionChargingInformation = &cdrType.PDUSessionChargingInformation{
+		pduCdr := &cdrType.PDUSessionChargingInformation{
 			PDUSessionChargingID: cdrType.ChargingID{
 				Value: int64(pduSessionInfo.ChargingId),
 			},
-			PDUSessionId: cdrType.PDUSessionId{
-				Value: int64(pduSessionInfo.PduSessionInformation.PduSessionID),
-			},
-			NetworkSliceInstanceID: &cdrType.SingleNSSAI{
-				SST: cdrType.SliceServiceType{
-					Value: int64(pduSessionInfo.PduSessionInformation.NetworkSlicingInfo.SNSSAI.Sst),
-				},
-				SD: &cdrType.SliceDifferentiator{
-					Value: []byte(pduSessionInfo.PduSessionInformation.NetworkSlicingInfo.SNSSAI.Sd),
-				},
-			},
-			DataNetworkNameIdentifier: &cdrType.DataNetworkNameIdentifier{
-				Value: asn.IA5String(pduSessionInfo.PduSessionInformation.DnnId),
-			},
 		}
+		// the PDU session information and its slice information are optional in the request
+		if pduInfo := pduSessionInfo.PduSessionInformation; pduInfo != nil {
+			pduCdr.PDUSessionId = cdrType.PDUSessionId{
+				Value: int64(pduInfo.PduSessionID),
+			}
+			if slicingInfo := pduInfo.NetworkSlicingInfo; slicingInfo != nil && slicingInfo.SNSSAI != nil {
+				pduCdr.NetworkSliceInstanceID = &cdrType.SingleNSSAI{
+					SST: cdrType.SliceServiceType{
+						Value: int64(slicingInfo.SNSSAI.Sst),
+					},
+					SD: &cdrType.SliceDifferentiator{
+						Value: []byte(slicingInfo.SNSSAI.Sd),
+					},
+				}
+			}
+			pduCdr.DataNetworkNameIdentifier = &cdrType.DataNetworkNameIdentifier{
+				Value: asn.IA5String(pduInfo.DnnId),
+			}
+		}
+		chfCdr.PDUSessionChargingInformation = pduCdr
 	}
 
 	chfCdr.ChargingID.Value = int64(chargingData.ChargingId)
